@@ -341,6 +341,15 @@ def run(prop, tier, seed):
     R.assumptions = list(ASSUME)
     if prop in ("C16", "C03", "C13"):
         run_process_level(prop, tier, seed, R)
+        if prop == "C03":
+            # entries stored under the key of a position the search never entered (poison.py / PoisonTrace.tla)
+            import poison
+            exe = vlib.build_harness()
+            work = vlib.workdir("poison")
+            try:
+                R.coverage["table_probe"] = poison.run(R, exe, work, seed, tier)
+            finally:
+                shutil.rmtree(work, ignore_errors=True)
         if prop == "C16":
             # the go parser as a whole (GoParse.tla): a parser failure on a malformed go line is a C16 matter,
             # a different (depth, limit) than the transcription is SPEC-DRIFT only
